@@ -9,7 +9,8 @@
 EXTENDS CompilePipeline
 
 Base == [fam |-> "", shape |-> "", mods |-> Mods, imp |-> {}, subs |-> {}, inc |-> {}, defs |-> {},
-         roots |-> {}, augs |-> {}, devs |-> {}, off |-> {}, alias |-> {}, spell |-> "u", rpos |-> "container"]
+         roots |-> {}, augs |-> {}, devs |-> {}, off |-> {}, alias |-> {}, spell |-> "u", rpos |-> "container",
+         spath |-> <<"container">>, ill |-> {}]
 Spellings == {"u", "o", "mix"}
 
 \* ---- definition graphs: name -> set of referenced names ("z" is never defined)
@@ -90,6 +91,66 @@ TwinFamily(k) ==
   UNION {{TwinInst(k, sh1, sh2, hh, nest, x, sp) : x \in {""} \cup {h \in {hh[1], hh[2]} : ~Scoped(h)}}
          : sp \in Spellings, sh1 \in {"single", "chain"}, sh2 \in {"single", "chain", "self", "cyc2", "cyc3", "lasso", "dang1", "dang"},
            hh \in TwinScopes(k), nest \in PosPairs(k)}
+
+\* ---- scoped: the definitions of one reference graph (every shape) written in a scope "m1.x1" that is reached through
+\* any nesting of statements (I.spath: container / list / choice-case / shorthand case / rpc input / output / notification /
+\* another grouping / augment / uses-augment, up to three deep, the innermost being any statement that may hold
+\* definitions), used by a data node of that scope.  Placement of the definitions: all in the scope ("in"), or only "a" in
+\* the scope and the rest of the graph at the top level of the module ("top") or in another module ("out") - an
+\* unprefixed name is looked up in the scope first, then at the top level, so a chain may leave the scope but never
+\* re-enter it (the cycle shapes then contain a reference to a name that is not visible there: dangling).
+SPathsN(n) == {s \in [1..n -> Wrappers] : ValidSPath(s)}
+SPathsAll(u_) == SPathsN(1) \cup SPathsN(2) \cup SPathsN(3)
+\* the model checker's share: every holder alone, and every wrapper once in front of a container
+SPathsSmall == SPathsN(1) \cup {s \in SPathsN(2) : s[2] = "container"}
+ScopedPlaces == {"in", "top", "out"}
+ScopedInst(k, sh, nest, pl, used, sp, spath) ==
+  LET F == ShapeFn(sh)
+      homeOf(n) == IF n = "a" \/ pl = "in" THEN "m1.x1" ELSE IF pl = "top" THEN "m1" ELSE "m2"
+      refsOf(n) == {IF y = "z" THEN Ref("m1", "z") ELSE Ref(ModH(homeOf(y)), y) : y \in F[n]}
+      defs == {[k |-> k, n |-> n, home |-> homeOf(n), refs |-> refsOf(n), pos |-> nest[1]] : n \in DOMAIN F}
+      need == UNION {{<<ModH(d.home), r.m>> : r \in {x \in d.refs : x.m # ModH(d.home)}} : d \in defs}
+  IN [Base EXCEPT !.fam = k, !.shape = "scoped-" \o sh \o "-" \o pl, !.defs = defs, !.imp = need, !.spell = sp, !.rpos = nest[2], !.spath = spath,
+                  !.roots = IF used THEN {[home |-> "m1.x1", k |-> k, m |-> "m1", n |-> "a"]} ELSE {}]
+ScopedFamily(k, SP) ==
+  {ScopedInst(k, sh, nest, pl, used, sp, spath)
+   : sh \in ShapesOf(k), nest \in PosPairs(k), pl \in ScopedPlaces, used \in BOOLEAN, sp \in Spellings, spath \in SP}
+SampleScoped(k) ==
+  {ScopedInst(k, sh, nest, pl, used, sp, spath)
+   : sh \in {RandomElement(ShapesOf(k))}, nest \in {RandomElement(PosPairs(k))}, pl \in {RandomElement(ScopedPlaces)},
+     used \in {RandomElement(1..4) > 1}, sp \in {RandomElement(Spellings)},
+     spath \in {LET n == RandomElement(1..3) IN RandomElement(SPathsN(n))}}
+SampleScopeds(k, n) == UNION {SampleScoped(k) : i \in 1..n}
+
+\* ---- kindmix: a name that IS defined - as a definition of another kind (typedef a; uses a).  Typedefs, groupings,
+\* identities and features have separate name spaces (RFC 6020 6.2.1): the reference is dangling unless a definition
+\* of the right kind exists too ("both").  The reference comes from a data node or from a definition b a data node uses.
+KindMixInst(k1, k2, h1, via, both, nest, sp) ==
+  LET d1 == {[k |-> k1, n |-> "a", home |-> h1, refs |-> {}, pos |-> "direct"]}
+           \cup (IF both THEN {[k |-> k2, n |-> "a", home |-> h1, refs |-> {}, pos |-> nest[1]]} ELSE {})
+      d2 == IF via THEN {[k |-> k2, n |-> "b", home |-> "m1", refs |-> {Ref(h1, "a")}, pos |-> nest[1]]} ELSE {}
+  IN [Base EXCEPT !.fam = "kindmix", !.shape = k1 \o "-as-" \o k2 \o (IF both THEN "-both" ELSE ""), !.defs = d1 \cup d2, !.spell = sp, !.rpos = nest[2],
+                  !.imp = IF h1 = "m1" THEN {} ELSE {<<"m1", h1>>},
+                  !.roots = {[home |-> "m1", k |-> k2, m |-> (IF via THEN "m1" ELSE h1), n |-> (IF via THEN "b" ELSE "a")]}]
+KindMixFamily == UNION {{KindMixInst(k1, k2, h1, via, both, nest, sp) : nest \in PosPairs(k2)}
+                        : k1 \in Kinds, k2 \in Kinds \ {k1}, h1 \in {"m1", "m2"}, via \in BOOLEAN, both \in BOOLEAN, sp \in {"u", "o"}}
+
+\* ---- illformed: ONE statement (uses-augment, refine, unique, top-level augment, deviation) with either kind of schema
+\* node id, naming every kind of node of the host (or none), with every property; see CompilePipeline "ill-formed
+\* statements".  Well-formed and ill-formed members differ in exactly that statement.
+IllTargets == {"container", "leaf", "leafnd", "leaf-list", "list", "choice", "case", "none", "nonedeep"}
+IllRec(site, arg, tgt, prop, m, at) == [site |-> site, arg |-> arg, tgt |-> tgt, prop |-> prop, m |-> m, at |-> at]
+IllStatements(u_) ==
+  {IllRec("uses-augment", arg, tgt, "leaf", "m1", at) : arg \in {"desc", "abs"}, tgt \in IllTargets, at \in {"data", "grouping", "case", "rpc"}}
+  \cup {IllRec("refine", arg, tgt, prop, "m1", at) : arg \in {"desc", "abs"}, tgt \in IllTargets, at \in {"data", "grouping", "case", "rpc"},
+                                                     prop \in {"default", "mandatory", "presence", "description", "min-elements"}}
+  \cup {IllRec("unique", arg, tgt, "-", "m1", "data") : arg \in {"desc", "abs"}, tgt \in {"leaf", "nested", "container", "none"}}
+  \cup {IllRec("augment", arg, tgt, "leaf", m, at) : arg \in {"desc", "abs"}, tgt \in IllTargets, m \in {"m1", "m2"}, at \in {"data", "rpc"}}
+  \cup {IllRec("deviation", arg, tgt, prop, "m2", "data") : arg \in {"desc", "abs"}, tgt \in IllTargets \ {"choice", "case"},
+                                                            prop \in {"not-supported", "replace", "add", "delete"}}
+IllInst(x, sp) == [Base EXCEPT !.fam = "illformed", !.shape = x.site \o "-" \o x.arg \o "-" \o x.tgt, !.mods = {"m1", "m2"}, !.imp = {<<"m2", "m1">>},
+                               !.spell = sp, !.ill = {x}]
+IllFamily == {IllInst(x, sp) : x \in IllStatements(0), sp \in {"u", "o"}}
 
 \* ---- import graphs: every set of import statements between the supplied modules
 ImportFamily(present) ==
@@ -191,11 +252,15 @@ Combos(n, Places) ==
 AllPlaces(sz) == IF sz = "s" THEN {"m1", "m2"} ELSE Mods
 Chunk(c) ==
   CASE c[1] \in Kinds /\ c[2] = "twin" -> TwinFamily(c[1])
+    [] c[1] \in Kinds /\ c[2] = "scoped" -> ScopedFamily(c[1], SPathsSmall)
     [] c[1] \in Kinds -> DefFamily(c[1], c[2], AllPlaces(c[3]))
+    [] c[1] = "kindmix" -> KindMixFamily
+    [] c[1] = "illformed" -> IllFamily
     [] c[1] = "subimport" -> SubImportFamily
     [] c[1] = "import" -> ImportFamily(IF c[3] = "s" THEN {"m1", "m2"} ELSE Mods)
     [] c[1] = "include" -> IncludeFamily(IF c[3] = "s" THEN {"m1"} ELSE {"m1", "m2"}, IF c[3] = "s" THEN IncCandSmall ELSE IncCandFull)
     [] c[1] = "augdev" -> AugDevFamily
 Chunks(sz) == {<<k, sh, sz>> : k \in Kinds, sh \in SingleRef} \cup {<<k, "twin", sz>> : k \in Kinds} \cup {<<k, sh, sz>> : k \in {"grouping", "feature"}, sh \in {"fan", "dag"}}
-              \cup {<<"subimport", "-", sz>>, <<"import", "-", sz>>, <<"include", "-", sz>>, <<"augdev", "-", sz>>}
+              \cup {<<k, "scoped", sz>> : k \in {"grouping", "typedef"}}
+              \cup {<<"subimport", "-", sz>>, <<"import", "-", sz>>, <<"include", "-", sz>>, <<"augdev", "-", sz>>, <<"kindmix", "-", sz>>, <<"illformed", "-", sz>>}
 =============================================================================
